@@ -229,6 +229,10 @@ def run(run, tier, loadcfg):
         from rules import C13
         cxb = Ctx(facts)
         C13.check_next_frame(run, cxb, 'std-debug:bus-clause')
+        # ... and the bookkeeping the pop decision relies on: a new output registers at the end of the backlog, a
+        # dropped output's offset is removed (else it stays the least reader forever) and what nobody needs is trimmed
+        C13.check_send(run, cxb, 'std-debug:bus-clause')
+        C13.check_misc(run, cxb, 'std-debug:bus-clause', only={'drop', 'next'})
     # positive control: the classifier is not blind
     run.check(total_controls >= 20, 'heap.positive-control', 'exception table', 'all', 'the classifier flagged only %d allocating call sites inside the exception table (expected >= 20: Rc::new, VecDeque::push_back, BTreeMap::insert, Box::new, vec!, Box::from_raw ...): it may be blind' % total_controls,
               sample={'allocating call sites seen inside the exception table': total_controls})
